@@ -11,7 +11,7 @@ import (
 
 var (
 	idxSignature = []byte{255, 't', 'O', 'c'}
-	idxMinLen    = idxHeaderSize + idxFanoutSize + idxCrcSize + len(idxSignature) + 40 // idx and pack hashes
+	idxMinLen    = idxHeaderSize + idxFanoutSize + 40 // an index of no objects: header, fanout, pack and idx hashes (SHA-1)
 	idxSupported = uint32(2)
 )
 
